@@ -26,7 +26,7 @@ LEAN_MODULES = ['VotelibProofs.Props.C19']
 GEN_MODULES = []
 REQUIRED = ['codec_roundtrip', 'codec_reserialize_stable', 'to_from_dict_roundtrip', 'codec_rejects', 'codec_accepts', 'codec_save_ok_iff',
             'representable_serializable', 'codec_save_or_faithful', 'codec_faithful_iff_serializable', 'codec_set_reloads',
-            'codec_reserved_key_reloads', 'codec_reserved_callable_reloads',
+            'codec_mixed_keys_typed_form', 'codec_mixed_keys_reload', 'codec_reserved_key_reloads', 'codec_reserved_callable_reloads',
             'blt_roundtrip', 'blt_dump_refuses_iff', 'blt_save_or_faithful', 'blt_written_string_uncut', 'blt_comment_start_examples',
             'blt_parse_total', 'blt_oneplus_below_one', 'blt_repeated_ballot_exact', 'blt_loaded_indices_valid', 'blt_former_foreign_errors',
             'Stv.stv_nicks_distinct', 'Stv.stv_nicks_nonempty', 'Stv.stv_roundtrip', 'Stv.stv_blt_mode_roundtrip', 'Stv.stv_dump_refuses',
@@ -36,8 +36,11 @@ REQUIRED = ['codec_roundtrip', 'codec_reserialize_stable', 'to_from_dict_roundtr
             'Stv.stv_end_and_empty_ballot_reload']
 REQUIRED_COUNTERS = ['codec_frac', 'codec_dec', 'codec_tuple', 'codec_fset', 'codec_sdict', 'codec_gdict', 'codec_obj', 'codec_callable',
                      'codec_depth_4', 'unrepresentable', 'codec_plain_set', 'codec_reserved_key', 'codec_equal_values_different_types',
-                     'codec_same_name_two_registries', 'codec_wide',
-                     'class_rt', 'class_bad', 'class_signatures', 'class_sensitive', 'class_same_name_two_registries', 'class_identity_keys',
+                     'codec_same_name_two_registries', 'codec_wide', 'codec_mixed_keys',
+                     'class_rt', 'class_bad', 'class_signatures', 'class_sensitive', 'class_same_name_two_registries', 'class_identity_keys', 'class_mixed_keys', 'class_mixed_keys_outcome',
+                     'class_mixed_keys_per_class', 'mixed_Person', 'mixed_PoliticalParty', 'mixed_ByConstituency', 'mixed_PreApportioned',
+                     'mixed_BiproportionalEvaluator', 'mixed_CoalitionMemberBracketer', 'mixed_PropertyBracketer', 'mixed_EnumScoreVoteValidator',
+                     'mixed_RangeVoteValidator', 'mixed_RankedVoteValidator',
                      'class_equal_values_different_types', 'sens_LargestRemainder_accept_equal',
                      'sens_LargestRemainder_on_overaward', 'sens_Coalition_lead', 'sens_ByConstituency_subsetter', 'sens_ByParty_subsetter',
                      'sens_UnusedVotesDistributor_depth', 'sens_TransferableVoteDistributor_mandatory_quota', 'cls_depth_4', 'feat_fraction', 'feat_decimal', 'feat_callable_by_name', 'feat_dict_keyed',
@@ -72,7 +75,11 @@ RULE = ('codec: random value trees of depth <= 4 over atoms (None/bool/int up to
         'any order around TransferableVoteSelector / Distributor (quota droop / hare / imperiali / constant / nameless / None, mandatory, '
         'accept_quota_equal, retainer, elimination step, Hare transferer) or Plurality / Copeland; tie-breakers number / input order / Sortitor '
         'with and without seed / PreConverted (three converters) / unsupported; titles incl. uncarriable ones; with and without n_seats. '
-        'Non-trivial: codec depth >= 1; class saved without error; documents with >= 2 candidates and >= 1 ballot; texts > 8 characters.')
+        'Mixed key types: mappings keyed by str together with int / None / bool / tuple / Fraction keys (and int + None ...) — directed codec '
+        'values; PropertyBracketer thresholds keyed that way inside Conditioned / FixedSeatCount / VotingSystem on parties whose outcome '
+        'depends on the non-str key; for every class with a dict parameter (10 classes) a spec with a key of another type added to each dict; '
+        'the same on a quarter of the random class specs; all through the in-memory and the JSON-text route. '
+                'Non-trivial: codec depth >= 1; class saved without error; documents with >= 2 candidates and >= 1 ballot; texts > 8 characters.')
 NOT_VERIFIED = ['lexing of BLT/STV text (split, str(weight), Decimal(text), str.isdigit, STV header comments): the harness tokenises real '
                 'text with Python\'s own predicates; writer and parser are compared with the token-level model on those token lines. The BLT '
                 'comment rule (_clean_line: strip, where a # comment starts relative to double quotes) IS modelled at character level '
@@ -171,7 +178,7 @@ def _oracle_codec(case, obs):
     out = []
     if not CC.serializable_p(p):
         if not _is_err(obs['ser']):
-            out.append(('not_rejected', 'a value without a dict spelling was written: ' + json.dumps(obs['ser'])[:200]))
+            out.append(('not_rejected', 'a value without a dict spelling was written: ' + json.dumps(obs['ser'], default=str)[:200]))
         return out
     if _is_err(obs['ser']):
         return [('refused_representable', obs['ser']['exc'])]
@@ -181,7 +188,7 @@ def _oracle_codec(case, obs):
         if _is_err(b):
             out.append((pre + 'unloadable', f"saved without complaint, loading raises {b['exc']}"))
         elif b != want:
-            out.append((pre + 'silently_altered', f'reloads as {json.dumps(b)[:200]}'))
+            out.append((pre + 'silently_altered', f'reloads as {json.dumps(b, default=str)[:200]}'))
         if out:
             break                        # the JSON-text path is reported only when the in-memory path is clean
     return out
@@ -201,12 +208,12 @@ def _err_proto(e):
 def _compare_codec(case, iobs, mobs):
     # serialisation
     if _is_err(iobs['ser']) != _is_err(mobs['ser']):
-        return f"ser: impl={json.dumps(iobs['ser'])[:200]} model={json.dumps(mobs['ser'])[:200]}"
+        return f"ser: impl={json.dumps(iobs['ser'], default=str)[:200]} model={json.dumps(mobs['ser'], default=str)[:200]}"
     if _is_err(iobs['ser']):
         if iobs['ser']['err'] != mobs['ser']['err']:
             return f"ser error: impl={iobs['ser']['err']} model={mobs['ser']['err']}"
     elif CC.canon_j(iobs['ser']) != CC.canon_j(mobs['ser']):
-        return f"ser: impl={json.dumps(iobs['ser'])[:300]} model={json.dumps(mobs['ser'])[:300]}"
+        return f"ser: impl={json.dumps(iobs['ser'], default=str)[:300]} model={json.dumps(mobs['ser'], default=str)[:300]}"
     # reload
     mb = mobs['back']
     ib = iobs['back']
@@ -217,9 +224,9 @@ def _compare_codec(case, iobs, mobs):
         if mb['err'] == 'unmodelled':
             pass
         elif not _is_err(ib) or _err_proto(ib) != mb['err']:
-            return f"back: impl={json.dumps(ib)[:200]} model={json.dumps(mb)[:200]}"
+            return f"back: impl={json.dumps(ib, default=str)[:200]} model={json.dumps(mb, default=str)[:200]}"
     elif _is_err(ib) or CC.canon_pval(mb) != ib:
-        return f"back: impl={json.dumps(ib)[:300]} model={json.dumps(CC.canon_pval(mb))[:300]}"
+        return f"back: impl={json.dumps(ib, default=str)[:300]} model={json.dumps(CC.canon_pval(mb), default=str)[:300]}"
     # the decidable side conditions, computed independently on both sides
     if mobs['serializable'] != CC.serializable_p(case['v']):
         return f"Serializable: model={mobs['serializable']}"
@@ -502,18 +509,58 @@ def _gen_class_directed(rng):
             yield c
 
 
+def _gen_class_mixed_keys(rng):
+    """dict parameters whose keys mix types (seeded change C19l): (a) PropertyBracketer inside Conditioned(…, HighestAverages) with
+    thresholds keyed by str together with int / None / bool / tuple, on parties whose outcome depends on the non-str key (custom
+    inputs 'property_kind'); (b) for EVERY class that has a dict parameter of its own, a generated spec with a key of another type
+    added to each of its dicts; (c) the same on random specs (see _gen_class)"""
+    import props.c19_classes as KL
+    E = 'votelib.evaluate.'
+    O = lambda cls, **a: {'t': 'obj', 'cls': cls, 'args': a}                      # noqa: E731
+    S = lambda v: {'t': 'str', 'v': v}                                            # noqa: E731
+    thr = lambda f: O(E + 'threshold.RelativeThreshold', threshold={'t': 'frac', 'v': f})      # noqa: E731
+    M = KL.MIX_KEYS
+    none = {'t': 'none'}
+    for keys, vals in (([S('minority'), M['int']], [none, thr('1/10')]), ([S('minority'), M['none']], [none, thr('1/10')]),
+                       ([S('minority'), M['bool']], [none, thr('1/10')]), ([S('minority'), M['tuple']], [none, thr('1/10')]),
+                       ([M['int'], M['none'], S('x')], [thr('1/10'), thr('1/12'), none]),
+                       ([M['int'], M['none']], [thr('1/10'), thr('1/12')]),
+                       ([S('minority'), M['int'], M['none'], M['bool'], M['tuple']], [none, thr('1/10'), thr('1/12'), thr('1/11'), thr('1/9')])):
+        pb = O(E + 'threshold.PropertyBracketer', property=S('kind'), evaluators={'t': 'dict', 'k': keys, 'v': vals}, default=thr('1/20'))
+        for spec in (O(E + 'core.Conditioned', eliminator=pb, evaluator=O(E + 'proportional.HighestAverages', divisor_function=S('d_hondt'))),
+                     O('votelib.VotingSystem', name=S('Assembly'), evaluator=O(E + 'core.FixedSeatCount', n_seats={'t': 'int', 'v': 10}, evaluator=O(
+                         E + 'core.Conditioned', eliminator=pb, evaluator=O(E + 'proportional.HighestAverages', divisor_function=S('d_hondt'))))),
+                     pb):
+            yield {'op': 'class_rt', 'spec': spec, 'seed': 0, 'custom': 'property_kind',
+                   '_tags': ['class_rt', 'class_directed', 'class_mixed_keys', 'class_mixed_keys_outcome', 'class_custom_inputs']}
+    for cls in KL.covered():
+        for _ in range(40):
+            spec = KL.gen_spec(rng, cls, depth=2)
+            if any(v.get('t') == 'dict' and v['k'] for v in spec['args'].values()):
+                got = KL.mix_keys(spec, rng, own_only=True)
+                if got:
+                    yield {'op': 'class_rt', 'spec': got[0], 'seed': rng.randint(0, 10 ** 6),
+                           '_tags': ['class_rt', 'class_mixed_keys', 'class_mixed_keys_per_class', 'mixed_' + cls.rsplit('.', 1)[1]]
+                           + ['mixed_key_' + k for k in got[1]]}
+                    break
+
+
 def _gen_class(rng, n, n_bad):
     import props.c19_classes as KL
     yield {'op': 'class_sig', '_tags': ['class_signatures']}
     yield from _gen_sensitive()
     yield from _gen_class_directed(rng)
+    yield from _gen_class_mixed_keys(rng)
     cov = KL.covered()
     order = list(cov)
     rng.shuffle(order)
     for k in range(n):
         cls = order[k % len(order)] if k < 10 * len(order) else None    # every class at least ten times, then free choice
         spec = KL.gen_spec(rng, cls, depth=rng.choice([1, 2, 3, 4, 4]))
-        c = {'op': 'class_rt', 'spec': spec, 'seed': rng.randint(0, 10 ** 6), '_tags': ['class_rt']}
+        mixed = KL.mix_keys(spec, rng) if rng.random() < 0.25 else None       # keys of mixed types in every dict, at any depth
+        if mixed:
+            spec = mixed[0]
+        c = {'op': 'class_rt', 'spec': spec, 'seed': rng.randint(0, 10 ** 6), '_tags': ['class_rt'] + (['class_mixed_keys'] if mixed else [])}
         c['_tags'] += ['cls_depth_%d' % min(KL.spec_depth(spec), 4)] + ['feat_' + f for f in KL.spec_features(spec)]
         if not KL.is_deterministic(spec):
             c['_tags'].append('nondeterministic')
